@@ -531,6 +531,11 @@ package derive
 //@ requires [nothing-pending] !renamedUnsaved
 //@ ensures [renamed-call-sites-saved] err == nil ==> !renamedUnsaved
 //@ ensures [derived-file-synced] err == nil ==> synced
+// C09/C01: success means every derive call of the package was handed to its plugin: the package as last
+// analysed has no call left whose argument types could not be determined (history variable callsLeft)
+//@ local-ghost: callsLeft
+//@ ghost-after-call derive.newPackage: callsLeft = $ret1 == nil && len($ret0.undefined) > 0
+//@ ensures [no-call-left-behind] err == nil ==> !callsLeft
 //@ ensures [user-files-intact] (!pg.autoname && !pg.dedup) ==> forall q string :: !isDerivedFile(q) ==> ((q in fs) <==> (q in old(fs))) && fs[q] == old(fs)[q]
 //@ ensures [only-derived-file-created-or-deleted] forall q string :: !isDerivedFile(q) ==> ((q in fs) <==> (q in old(fs)))
 // C11: the package is analysed under the flags the program was loaded with, each in its own place
@@ -543,6 +548,8 @@ package derive
 //@ loop 1: invariant forall k int :: 0 <= k && k < len(pkgInfo.Files) ==> pkgInfo.Files[k] != nil
 //@ loop 1: invariant !generated ==> synced
 //@ loop 1: invariant !renamedUnsaved
+//@ loop 1: invariant [left-calls-are-remembered] callsLeft ==> len(undefined) > 0
+//@ loop 2: invariant len(us) == len(pkgGen.undefined) && forall k int :: 0 <= k && k < $i ==> len(us[k]) > 0
 //@ loop 1: invariant (!pg.autoname && !pg.dedup) ==> forall q string :: !isDerivedFile(q) ==> ((q in fs) <==> (q in old(fs))) && fs[q] == old(fs)[q]
 //@ loop 1: invariant forall q string :: !isDerivedFile(q) ==> ((q in fs) <==> (q in old(fs)))
 
@@ -582,6 +589,12 @@ package derive
 //@ extern func strings.Join(elems []string, sep string) (r string)
 //@ pure
 //@ ensures r == strJoin(elems, sep)
+// the joined text begins with the first element
+//@ ensures (len(elems) > 0 && len(elems[0]) > 0) ==> len(r) > 0
+// go/types prints at least one character for an expression
+//@ extern func types.ExprString(x ast.Expr) (r string)
+//@ pure
+//@ ensures len(r) > 0
 
 // ---------------------------------------------------------------------------
 // C08: the map-range loops of the generator's own code do not make its result
